@@ -2,7 +2,7 @@
 from contracts.c05_solve import SolverDefaults
 from contracts.c02_solve_t import SolveTContract
 from contracts.c05_solve import SolvePeriodContract
-from props.solve_bounded import SolveTScripted
+from props.solve_bounded import SolveGrammarDifferential, SolveTScripted
 from verif.crosscheck import TARGETS as _XT, EncoderCrossCheck
 from verif.spec import PropertySpec
 
@@ -12,7 +12,7 @@ _c.shards = {'generic/offset0': 2, 'parser/offset0': 2, 'generic/offset': 6, 'pa
 PROPERTY = PropertySpec(
     id='C02',
     contracts=[_c, SolvePeriodContract(), SolverDefaults()],
-    bounded=[SolveTScripted()],
+    bounded=[SolveTScripted(), SolveGrammarDifferential()],
     level='proof',
     explanation='BaseModel.solve_t is symbolically executed from its real ast; the iteration loop is cut by an inductive invariant over '
                 'a ghost pass history, hooks are replaced by their interface contract, and every exit (return or exception) is checked '
